@@ -67,6 +67,7 @@ def merge_(
                 on_next, on_error, on_completed, scheduler=scheduler
             )
 
+        @synchronized(source.lock)
         def on_next(inner_source: Observable[_T]) -> None:
             assert max_concurrent
             if active_count[0] < max_concurrent:
@@ -75,6 +76,7 @@ def merge_(
             else:
                 queue.append(inner_source)
 
+        @synchronized(source.lock)
         def on_completed():
             is_stopped[0] = True
             if active_count[0] == 0:
@@ -82,7 +84,10 @@ def merge_(
 
         group.add(
             source.subscribe(
-                on_next, observer.on_error, on_completed, scheduler=scheduler
+                on_next,
+                synchronized(source.lock)(observer.on_error),
+                on_completed,
+                scheduler=scheduler,
             )
         )
         return group
@@ -139,13 +144,17 @@ def merge_all_(
             )
             inner_subscription.disposable = subscription
 
+        @synchronized(source.lock)
         def on_completed():
             is_stopped[0] = True
             if len(group) == 1:
                 observer.on_completed()
 
         m.disposable = source.subscribe(
-            on_next, observer.on_error, on_completed, scheduler=scheduler
+            on_next,
+            synchronized(source.lock)(observer.on_error),
+            on_completed,
+            scheduler=scheduler,
         )
         return group
 
